@@ -8,6 +8,10 @@ export PIP_NO_INDEX=1
 if ! PYTHONPATH="$HERE/.deps" "$PY" -c "import hypothesis" 2>/dev/null; then
   "$PY" -m pip install -q --no-index --find-links /opt/veriftools/wheels --target "$HERE/.deps" hypothesis || exit 2
 fi
+# atheris drives the coverage-guided stream of C10; best effort (without it that stream is recorded as unavailable, nothing fails)
+if ! PYTHONPATH="$HERE/.deps" "$PY" -c "import atheris" 2>/dev/null; then
+  "$PY" -m pip install -q --no-index --find-links /opt/veriftools/wheels --target "$HERE/.deps" atheris 2>/dev/null || echo "setup: atheris not installable, C10 runs without its coverage-guided stream"
+fi
 PYTHONPATH="$HERE/.deps" "$PY" - <<'PY' || exit 2
 import json, glob, sys
 import hypothesis
